@@ -1,6 +1,6 @@
 (* Square-and-multiply on Bignums' BigZ (machine-integer limbs): an accelerated evaluator for
-   b^e mod m, used ONLY by the correspondence runner (back end tag DefaultBig in model/Bigint.v).
-   proofs/BigBackend.v proves it equal to the plain-Z powmod the theorems are about; that proof -
+   b^e mod m, used ONLY by the correspondence runner (corr/SrpBig.v), which
+   proves it equal to the plain-Z powmod the theorems are about; that proof -
    and nothing in props/ - depends on the Uint63 primitive axioms of Coq's standard library. *)
 From Coq Require Import ZArith.
 From Bignums Require Import BigZ.
